@@ -40,7 +40,8 @@ def main():
                     entry.update(replay_kind=r.get("kind"), replay_what=r.get("what", r.get("note")), replay_key=r.get("key"))
                 except Exception as e:  # noqa: BLE001
                     entry["replay_err"] = str(e)
-            meta.setdefault("checks_before_strengthening", {}).update({p: meta["checks"].get(p)})
+            # `first_result` (what the check reported when the change was first run against it) is written once and never touched again
+            meta.setdefault("first_result", {}).setdefault(p, {k: meta["checks"].get(p, {}).get(k) for k in ("rc", "replay_kind", "replay_key", "replay_what")})
             meta["checks"][p] = entry
     finally:
         sh("git -C /repo checkout -- .")
